@@ -94,6 +94,7 @@ struct TrainIn {
     corpus: Vec<Vec<(Vec<u32>, Vec<String>)>>,
     user: Vec<(Vec<u32>, u32, u32, i32, Vec<String>)>,
     max_iter: u64,
+    reg: f64,
 }
 
 impl TrainIn {
@@ -129,8 +130,54 @@ impl TrainIn {
             "T": self.templates, "rules": self.rules,
             "user": self.user.iter().map(|(s, l, r, c, cells)| json!({"s": s, "l": l, "r": r, "c": c, "cells": cells, "ftext": cells_text(cells)})).collect::<Vec<_>>(),
             "ncorpus": self.corpus.len(),
+            "corpus": self.corpus.iter().map(|sent| sent.iter().map(|(s, c)| json!({"s": s, "cells": c})).collect::<Vec<_>>()).collect::<Vec<_>>(),
+            "max_iter": self.max_iter,
+            "reg1000": (self.reg * 1000.0) as i64,
+            "names": self.cats.iter().map(|c| c.name.clone()).collect::<Vec<_>>(),
         })
     }
+}
+
+impl TrainIn {
+    fn from_json(v: &Value) -> TrainIn {
+        let u = |x: &Value| x.as_u64().unwrap_or(0);
+        let cps = |x: &Value| -> Vec<u32> { x.as_array().map(|a| a.iter().map(|c| c.as_u64().unwrap() as u32).collect()).unwrap_or_default() };
+        let cells = |x: &Value| -> Vec<String> { x.as_array().map(|a| a.iter().map(|c| c.as_str().unwrap_or("").to_string()).collect()).unwrap_or_default() };
+        let names: Vec<String> = v["names"].as_array().map(|a| a.iter().map(|s| s.as_str().unwrap().to_string()).collect()).unwrap_or_default();
+        TrainIn {
+            cats: v["cats"].as_array().unwrap().iter().enumerate().map(|(i, c)| ACat {
+                name: names.get(i).cloned().unwrap_or_else(|| if i == 0 { "DEFAULT".into() } else { format!("C{i}") }),
+                invoke: u(&c["invoke"]) as u8, group: u(&c["group"]) as u8, length: u(&c["length"]) as u32 }).collect(),
+            ranges: v["ranges"].as_array().unwrap().iter().map(|r| ARange { lo: u(&r["lo"]) as u32, hi: u(&r["hi"]) as u32, cs: r["cs"].as_array().unwrap().iter().map(|c| u(c) as usize).collect() }).collect(),
+            seed: v["seed"].as_array().unwrap().iter().map(|r| (cps(&r["s"]), cells(&r["cells"]))).collect(),
+            unk: v["unk"].as_array().unwrap().iter().map(|r| (u(&r["cat"]) as usize, cells(&r["cells"]))).collect(),
+            templates: v["T"].clone(),
+            rules: v["rules"].clone(),
+            corpus: v["corpus"].as_array().unwrap().iter().map(|s| s.as_array().unwrap().iter().map(|t| (cps(&t["s"]), cells(&t["cells"]))).collect()).collect(),
+            user: v["user"].as_array().unwrap().iter().map(|r| (cps(&r["s"]), u(&r["l"]) as u32, u(&r["r"]) as u32, r["c"].as_i64().unwrap_or(0) as i32, cells(&r["cells"]))).collect(),
+            max_iter: v["max_iter"].as_u64().unwrap_or(5),
+            reg: v["reg1000"].as_i64().unwrap_or(10) as f64 / 1000.0,
+        }
+    }
+}
+
+/// Replays training inputs: {"in": <TrainIn>, "hist": [...], "randw": <seed or -1>} per line.
+pub fn replay(a: &HashMap<String, String>) -> i32 {
+    let text = std::fs::read_to_string(a.get("in").expect("--in")).expect("read");
+    let out = a.get("out").expect("--out");
+    let mut evs = vec![];
+    for line in text.lines().filter(|l| !l.trim().is_empty()) {
+        let v: Value = serde_json::from_str(line).expect("json");
+        let ti = TrainIn::from_json(&v["in"]);
+        let hist: Vec<u8> = v["hist"].as_array().unwrap().iter().map(|x| x.as_u64().unwrap() as u8).collect();
+        let rw = v["randw"].as_i64().filter(|x| *x >= 0).map(|x| x as u64);
+        run_training(&ti, &hist, &mut evs, rw);
+    }
+    let mut f = std::io::BufWriter::new(std::fs::File::create(out).expect("create"));
+    for e in &evs {
+        writeln!(f, "{}", e).unwrap();
+    }
+    0
 }
 
 fn gen_cells(rng: &mut Rng) -> Vec<String> {
@@ -166,7 +213,8 @@ fn gen_train_in(rng: &mut Rng, bare_refs: bool) -> TrainIn {
     let mut seed: Vec<(Vec<u32>, Vec<String>)> = vec![];
     for _ in 0..nseed {
         let len = 1 + rng.below(3);
-        let s: Vec<u32> = (0..len).map(|_| *rng.pick(&LETTERS[..6])).collect();
+        // surfaces that need CSV quoting when written back: a quote, a comma
+        let s: Vec<u32> = (0..len).map(|_| if rng.chance(1, 8) { *rng.pick(&[0x22u32, 0x2C]) } else { *rng.pick(&LETTERS[..6]) }).collect();
         seed.push((s, gen_cells(rng)));
     }
     if rng.chance(1, 2) {
@@ -219,7 +267,7 @@ fn gen_train_in(rng: &mut Rng, bare_refs: bool) -> TrainIn {
         templates["left"][0] = json!([{"k": "ref", "i": i}]);
         templates["right"][0] = json!([{"k": "ref", "i": i}]);
     }
-    TrainIn { cats, ranges, seed, unk, templates, rules: gen_rules(rng), corpus, user, max_iter: 3 + rng.below(8) as u64 }
+    TrainIn { cats, ranges, seed, unk, templates, rules: gen_rules(rng), corpus, user, max_iter: 3 + rng.below(8) as u64, reg: 0.01 }
 }
 
 fn model_json(m: &Model) -> Value {
@@ -335,14 +383,14 @@ fn run_training(ti: &TrainIn, hist: &[u8], out: &mut Vec<Value>, randw: Option<u
         let shell = ti.adict_shell();
         let cfg = TrainerConfig::from_readers(ti.lex_text().as_bytes(), shell.render_char_def().as_bytes(), ti.unk_text().as_bytes(),
                                               feature_def(&ti.templates).as_bytes(), rewrite_def3(&ti.rules).as_bytes()).map_err(|e| e.to_string())?;
-        let trainer = Trainer::new(cfg).map_err(|e| e.to_string())?.regularization_cost(0.01).max_iter(ti.max_iter).num_threads(1);
+        let trainer = Trainer::new(cfg).map_err(|e| e.to_string())?.regularization_cost(ti.reg).max_iter(ti.max_iter).num_threads(1);
         let corpus = Corpus::from_reader(ti.corpus_text().as_bytes()).map_err(|e| e.to_string())?;
         let mut model = trainer.train(corpus).map_err(|e| e.to_string())?;
         quantise(&mut model);
         if let Some(sd) = randw {
             randomise_weights(&mut model, &mut Rng::new(sd));
         }
-        log.push(json!({"ev": "tsession", "in": ti.to_json()}));
+        log.push(json!({"ev": "tsession", "in": ti.to_json(), "hist": hist, "randw": randw.map(|x| x as i64).unwrap_or(-1)}));
         log.push(json!({"ev": "model", "m": model_json(&model)}));
         // the history: 0 = generate, 1 = write;read (continue on the reloaded copy), 2 = add the user lexicon
         let mut mem = model;
@@ -413,6 +461,88 @@ pub fn record(a: &HashMap<String, String>) -> i32 {
         }
         let rw = if randw && i % 2 == 1 { Some(seed.wrapping_mul(31).wrapping_add(i as u64)) } else { None };
         run_training(&ti, &hists[(off + i) % hists.len()], &mut evs, rw);
+    }
+    let mut f = std::io::BufWriter::new(std::fs::File::create(out).expect("create"));
+    for e in &evs {
+        writeln!(f, "{}", e).unwrap();
+    }
+    0
+}
+
+
+/// The train and dictgen binaries against the library path on the same inputs: every file
+/// dictgen writes must be byte-identical to what the library generates from a model trained
+/// with the same parameters (training is deterministic on one thread).
+pub fn cli_train(a: &HashMap<String, String>) -> i32 {
+    use std::process::{Command, Stdio};
+    let seed: u64 = a.get("seed").and_then(|s| s.parse().ok()).unwrap_or(1);
+    let n: usize = a.get("n").and_then(|s| s.parse().ok()).unwrap_or(6);
+    let bins = a.get("bins").expect("--bins");
+    let tmp = a.get("tmp").expect("--tmp");
+    let out = a.get("out").expect("--out");
+    let mut rng = Rng::new(seed ^ 0xC7A1);
+    let mut evs: Vec<Value> = vec![];
+    let run = |bin: &str, args: &[String]| -> bool {
+        Command::new(format!("{bins}/{bin}")).args(args).stdin(Stdio::null()).stdout(Stdio::null()).stderr(Stdio::null()).status().map(|s| s.success()).unwrap_or(false)
+    };
+    for i in 0..n {
+        let ti = gen_train_in(&mut rng, false);
+        let dir = format!("{tmp}/t{i}");
+        std::fs::create_dir_all(&dir).unwrap();
+        let p = |f: &str| format!("{dir}/{f}");
+        let shell = ti.adict_shell();
+        std::fs::write(p("lex.csv"), ti.lex_text()).unwrap();
+        std::fs::write(p("unk.def"), ti.unk_text()).unwrap();
+        std::fs::write(p("char.def"), shell.render_char_def()).unwrap();
+        std::fs::write(p("feature.def"), feature_def(&ti.templates)).unwrap();
+        std::fs::write(p("rewrite.def"), rewrite_def3(&ti.rules)).unwrap();
+        std::fs::write(p("corpus.txt"), ti.corpus_text()).unwrap();
+        let with_user = !ti.user.is_empty();
+        if with_user {
+            std::fs::write(p("user.csv"), ti.user_text(&ti.user)).unwrap();
+        }
+        let ok_train = run("train", &["-l".into(), p("lex.csv"), "-u".into(), p("unk.def"), "-t".into(), p("corpus.txt"), "-c".into(), p("char.def"),
+                                     "-f".into(), p("feature.def"), "-r".into(), p("rewrite.def"), "-o".into(), p("model.zst"),
+                                     "--lambda".into(), ti.reg.to_string(), "--max-iter".into(), ti.max_iter.to_string(), "--num-threads".into(), "1".into()]);
+        let mut dargs: Vec<String> = vec!["-i".into(), p("model.zst"), "-l".into(), p("out.lex"), "-u".into(), p("out.unk"), "-m".into(), p("out.matrix"), "--conn-id-info-out".into(), p("out.bigram")];
+        if with_user {
+            dargs.extend(["--user-lexicon-in".into(), p("user.csv"), "--user-lexicon-out".into(), p("out.user")]);
+        }
+        let ok_gen = ok_train && run("dictgen", &dargs);
+        let h = |f: &str| -> i64 { std::fs::read(p(f)).map(|b| fnv31(&b) as i64).unwrap_or(-1) };
+        let sorted_hash = |f: &str| -> i64 {
+            std::fs::read_to_string(p(f)).map(|t| { let mut l: Vec<&str> = t.lines().collect(); l.sort(); fnv31(l.join("\n").as_bytes()) as i64 }).unwrap_or(-1)
+        };
+        let cli = json!({"lex": h("out.lex"), "unk": h("out.unk"), "matrix": h("out.matrix"), "user": if with_user { h("out.user") } else { -2 },
+                         "left": h("out.bigram.left"), "right": h("out.bigram.right"), "cost": sorted_hash("out.bigram.cost")});
+        // the library path
+        let lib = catch_unwind(AssertUnwindSafe(|| -> Result<Value, String> {
+            let cfg = TrainerConfig::from_readers(ti.lex_text().as_bytes(), shell.render_char_def().as_bytes(), ti.unk_text().as_bytes(),
+                                                  feature_def(&ti.templates).as_bytes(), rewrite_def3(&ti.rules).as_bytes()).map_err(|e| e.to_string())?;
+            let trainer = Trainer::new(cfg).map_err(|e| e.to_string())?.regularization_cost(ti.reg).max_iter(ti.max_iter).num_threads(1);
+            let corpus = Corpus::from_reader(ti.corpus_text().as_bytes()).map_err(|e| e.to_string())?;
+            let model = trainer.train(corpus).map_err(|e| e.to_string())?;
+            // dictgen works on the model that went through write_model / read_model
+            let mut model = reload(&model).ok_or("reload")?;
+            if with_user {
+                model.read_user_lexicon(ti.user_text(&ti.user).as_bytes()).map_err(|e| e.to_string())?;
+            }
+            let (mut lex, mut mat, mut unk, mut usr) = (vec![], vec![], vec![], vec![]);
+            model.write_dictionary(&mut lex, &mut mat, &mut unk, &mut usr).map_err(|e| e.to_string())?;
+            let (mut bl, mut br, mut bc) = (vec![], vec![], vec![]);
+            model.write_bigram_details(&mut bl, &mut br, &mut bc).map_err(|e| e.to_string())?;
+            let mut cl: Vec<String> = String::from_utf8_lossy(&bc).lines().map(|s| s.to_string()).collect();
+            cl.sort();
+            Ok(json!({"lex": fnv31(&lex), "unk": fnv31(&unk), "matrix": fnv31(&mat), "user": if with_user { fnv31(&usr) as i64 } else { -2 },
+                      "left": fnv31(&bl), "right": fnv31(&br), "cost": fnv31(cl.join("\n").as_bytes())}))
+        }));
+        let ev = match lib {
+            Ok(Ok(l)) => json!({"ev": "clidiff", "lib_ok": true, "train_ok": ok_train, "dictgen_ok": ok_gen, "lib": l, "cli": cli, "user": with_user}),
+            Ok(Err(e)) => json!({"ev": "clidiff", "lib_ok": false, "train_ok": ok_train, "dictgen_ok": ok_gen, "lib": {}, "cli": cli, "user": with_user, "msg": e}),
+            Err(_) => json!({"ev": "clidiff", "lib_ok": false, "lib_panic": true, "train_ok": ok_train, "dictgen_ok": ok_gen, "lib": {}, "cli": cli, "user": with_user}),
+        };
+        evs.push(ev);
+        let _ = std::fs::remove_dir_all(&dir);
     }
     let mut f = std::io::BufWriter::new(std::fs::File::create(out).expect("create"));
     for e in &evs {
